@@ -13,8 +13,8 @@ claimed = {
          'bounds: the finite input grammar listed in the evidence (no free symbolic bytes: every branch of the real loop is still decided on the symbolic executor)', "§0 C02"),
  "C03": ('handler programs through the real ServeConn loop: 5 statuses × 6 body-building calls (streams read in bulk, byte-wise, or returning data together with io.EOF), two calls in a row, Content-Length / Transfer-Encoding / Connection set by hand, streams one byte shorter or longer than declared, TimeoutError responses for GET / HEAD / HTTP-1.0, with ≤2/≤5 arbitrary body bytes; the wire splits under an independent RFC 9112 reader (which rejects Content-Length together with Transfer-Encoding) into exactly the responses built, the next response starts where this one ends, and a mismatching stream never puts more than its declared size on the wire and closes',
          'bounds as stated; other headers/cookies (C05/C06), compression (C22), trailers outside', "§0 C03"),
- "C04": ("sequential HostClient calls against a scripted server whose responses carry arbitrary tag bytes: every successful call returns exactly the body the server produced for the request written at that position of that connection (also when a streamed body is closed early and its tail spells a complete response), no request is written to a connection after an exchange that said close, and such connections are closed",
-         "sequential histories of 2/3 calls; concurrency, PipelineClient and timeouts outside", "§0 C04"),
+ "C04": ("sequential HostClient calls against a scripted server whose responses carry arbitrary tag bytes: every successful call returns exactly the body the server produced for the request written at that position of that connection (also when a streamed body is closed early and its tail spells a complete response), no request is written to a connection after an exchange that said close, and such connections are closed; 3/4 concurrent PipelineClient calls against a reactive server whose first connection may die mid-batch: every successful call carries its own request's tag",
+         "HostClient: sequential histories of 2/3 calls; PipelineClient: cooperative schedules; concurrent HostClient calls and timeouts outside", "§0 C04"),
  "C05": ('one setter call with arbitrary name (≤2 bytes) and value (≤2 quick / ≤3 thorough bytes) per path over 22 request/response setters (incl. trailers), header-name normalisation on and off; the serialised head is re-split by an independent scanner: CR/LF only as CRLF, no early blank line, names among those set, bounded line count',
          'bounds: one call per header, name/value lengths as stated; proxy CONNECT target and URI setters on Request outside; one known finding excluded (non-token header names; CR/LF inside names stay in play)', "§0 C05"),
  "C06": ("request cookies: up to 2 SetCookie calls with arbitrary key/value bytes, parsed by a fresh or a reused server-side RequestHeader (both must agree, never more cookies than set, cookie-octets round-trip); response cookies: arbitrary key/value plus a domain or a path (incl. percent-escapes through SetPath/SetPathBytes) and 8 flag combinations, serialised through ResponseHeader.SetCookie and parsed by Cookie.ParseBytes: the number of ';' equals the attributes set, no Secure/HttpOnly/SameSite/Partitioned/Domain/Path/Max-Age that was not set, cookie-octets round-trip",
